@@ -43,16 +43,31 @@ func runC05(c *mon.Ctx) {
 				if t.Redaction >= 5 && typ == "m.room.member" {
 					ev.Get("content").Del("third_party_invite")
 				}
+				var lookalikes []string
+				if k%4 == 2 {
+					lookalikes = gen.AddFoldVariantKeys(r, ev, typ)
+				}
 				text := gen.Plain().Bytes(ev)
 				if k%3 == 1 {
 					text = gen.Scramble(r).Bytes(ev)
 				}
-				c.Case("redact-raw:"+string(ver)+":"+typ, map[string]any{"version": ver, "event": string(text)}, func() {
+				c.Case("redact-raw:"+string(ver)+":"+typ, map[string]any{"version": ver, "event": string(text), "lookalike_keys": lookalikes}, func() {
 					want := ref.Redact(t.Redaction, ev)
 					out, err := impl.RedactEventJSON(text)
 					if err != nil {
+						if len(lookalikes) > 0 {
+							c.Failf("redact:lookalike-key:error", "RedactEventJSON(v%s) fails on an event with the extra key(s) %q: %v\n%s", ver, lookalikes, err, text)
+							return
+						}
 						c.Failf("redact:error:"+typ, "RedactEventJSON(v%s, %q): %v", ver, text, err)
 						return
+					}
+					if len(lookalikes) > 0 {
+						c.Count("redactions_with_lookalike_keys")
+						if got, _, perr := ref.Parse(out); perr == nil && !ref.Equal(got, want) {
+							c.Failf("redact:lookalike-key:taken-for-protected-key", "RedactEventJSON(v%s) of an event with the extra key(s) %q (different keys from the protected ones they resemble)\n in   %s\n got  %s\n want %s", ver, lookalikes, text, ref.Canon(got), ref.Canon(want))
+							return
+						}
 					}
 					c.Count("redactions")
 					got, _, perr := ref.Parse(out)
